@@ -222,10 +222,15 @@ func (qe *queryEvent) handleQueryRequest(m *nats.Msg) {
 
 func (qr *queryRequest) executeCallback(cb func(QueryRequest)) {
 	// Recover from panics inside query event callback
+	panicking := true
 	defer func() {
 		v := recover()
 		if v == nil {
-			return
+			if !panicking {
+				return
+			}
+			// With panic(nil), recover returns nil in modules using go < 1.21
+			v = errors.New("panic called with nil argument")
 		}
 
 		var str string
@@ -264,6 +269,7 @@ func (qr *queryRequest) executeCallback(cb func(QueryRequest)) {
 	}()
 
 	cb(qr)
+	panicking = false
 }
 
 // error sends an error response as a reply.
